@@ -107,7 +107,8 @@ func (gs *GraphicsState) Restore() error {
 
 // Transform applies a transformation matrix to CTM (cm operator)
 func (gs *GraphicsState) Transform(m model.Matrix) {
-	gs.CTM = gs.CTM.Multiply(m)
+	// ISO 32000-1 8.3.4: the new matrix is applied first, CTM' = M x CTM
+	gs.CTM = m.Multiply(gs.CTM)
 }
 
 // SetLineWidth sets the line width (w operator)
